@@ -323,3 +323,15 @@ def free_name_searches_compare_slugs(ctx: Ctx) -> None:
         sets = [st for st, tgt, val in stores(v.node) if is_self_attr(tgt, "eq") and isinstance(val, ast.Constant) and val.value is True]
         ok = len(sets) == 1 and any(t == "self.order" and pol for t, pol, _ in control_deps(v, sets[0]))
     ctx.ob("OutputFormat.validate enables eq when order is set", ok, at=v or up, construct="order implies eq", msg="conflict rule changed")
+
+
+@rule("C07.R7")
+def enum_defaults_use_the_imported_name(ctx: Ctx) -> None:
+    """Filters.field_default_enum names the enumeration class the way the module imports it: the import alias of the matching type is
+    consulted (an aliased import `from b import Color as BColor` must give `default=BColor.RED`)."""
+    from ..q import family
+
+    fd = ctx.repo.func("xsdata.formats.dataclass.filters:Filters.field_default_enum")
+    reads = [x for f_ in family(ctx.repo, fd) for x in walk_no_nested(f_.node) if isinstance(x, ast.Attribute) and x.attr == "alias" and isinstance(x.ctx, ast.Load)]
+    ctx.ob("field_default_enum consults the import alias of the enumeration type", bool(reads), at=fd, construct="enum default alias",
+           msg="the default names the class by its own name although the module imports it under an alias: NameError / AttributeError when the generated module is imported")
